@@ -879,7 +879,7 @@ func (h *webHarness) oneRequestConc(router webRouter, exit string, reqNo int) []
 func init() {
 	mc.Register(&mc.Check{
 		Prop:        "C16",
-		Rule:        "sequential: for each of net/http, chi (plain net/http chain), gin, echo, fiber: every combination of {default / custom error + close-error handlers} x {default / custom Handle handlers} x {recovery on / off} x {0, 1, 2 configured middlewares} x exit path {ok via Handle, ok via a raw handler using FromContext, middleware error at every position, handler error (echo, fiber), handler panic, scope-creation failure (failing initializer), provider closed, controller unregistered, route without the middleware}, plus every ordered pair of exit paths as a two-request sequence on one router (pooled contexts); concurrent: two requests through one provider in two goroutines for http / chi / gin / echo, every schedule with <=2 preemptions (godi's synchronisation points and user callbacks; framework internals run atomically). A second, later-built ScopeMiddleware instance with different middlewares exists on every router and must not influence the first. Oracle per request: scopes created, which of handler / error / scope-error / resolution-error / panic handlers ran, middleware order, one and the same scope seen by all, controller resolved from it, every instance created for the request closed exactly once and the scope refusing use when the request has ended, panics swallowed iff recovery is enabled. distinct = canonical event strings.",
+		Rule:        "sequential: for each of net/http, chi (plain net/http chain), gin, echo, fiber: every combination of {default / custom error + close-error handlers} x {default / custom Handle handlers} x {recovery on / off} x {0, 1, 2 configured middlewares} x exit path {ok via Handle, ok via a raw handler using FromContext, middleware error at every position, handler error (echo, fiber), handler panic, scope-creation failure (failing initializer), provider closed, controller unregistered, route without the middleware}, plus every ordered pair of exit paths as a two-request sequence on one router (pooled contexts); concurrent: two requests through one provider in two goroutines for http / chi / gin / echo, every schedule with <=2 preemptions (godi's synchronisation points and user callbacks; framework internals run atomically). A second, later-built ScopeMiddleware instance with different middlewares exists on every router and must not influence the first. Oracle per request: scopes created, which of handler / error / scope-error / resolution-error / panic handlers ran, middleware order, one and the same scope seen by all, controller resolved from it, every instance created for the request closed exactly once and the scope refusing use when the request has ended, panics swallowed iff recovery is enabled. distinct = canonical event strings. Exit path scope-closed: the last configured middleware closes the request scope before the handler resolves its controller - exactly one of the scope-error / resolution-error handlers answers.",
 		Assume:      []string{"fiber is always run behind fiber's own recover middleware (a panic reaching fasthttp would kill the process) and via app.Test", "go-chi itself is not a dependency of the chi adapter; it is driven with a plain net/http chain"},
 		MinOutcomes: 10,
 		Jobs: func(tier string) []mc.Job {
